@@ -504,3 +504,29 @@ where
         } //end k
     } //end l
 }
+
+// ---------------------------------------------
+// verification hooks (read-only accessors)
+// ---------------------------------------------
+#[cfg(clarabel_verif)]
+impl<T> PSDTriangleCone<T>
+where
+    T: FloatT,
+{
+    /// matrix dimension n
+    pub fn verif_n(&self) -> usize {
+        self.n
+    }
+    /// the scaled variable Λ (diagonal)
+    pub fn verif_lambda(&self) -> &[T] {
+        &self.data.λ
+    }
+    /// R (n x n), column major
+    pub fn verif_R(&self) -> Vec<T> {
+        self.data.R.data().to_vec()
+    }
+    /// R^{-1} (n x n), column major
+    pub fn verif_Rinv(&self) -> Vec<T> {
+        self.data.Rinv.data().to_vec()
+    }
+}
